@@ -493,7 +493,7 @@ class GraphBuilder:
         for var in _vars:
             if var.auto_transform:
                 tname = f"{var.name}_transformed"
-                if tname in nodes or tname in _vars:
+                if tname in [v.name for v in _vars]:
                     raise RuntimeError(
                         f"Auto-transform of {var} failed, because a variable of the "
                         f"name {tname} is already present in {gb}."
